@@ -1015,6 +1015,31 @@ class Table(Vector):
 	def __pow__(self, other):
 		return self._table_elementwise_operation(other, operator.pow, '__pow__', '**')
 
+	# Reflected forms (scalar - table, list + table): the same column-by-column
+	# operation with the operands in the written order.  Without these the
+	# inherited Vector versions dropped every column name, and scalar + table
+	# ran over the ROWS and came back transposed.
+	def __radd__(self, other):
+		return self._table_elementwise_operation(other, lambda col, o: o + col, '__radd__', '+')
+
+	def __rsub__(self, other):
+		return self._table_elementwise_operation(other, lambda col, o: o - col, '__rsub__', '-')
+
+	def __rmul__(self, other):
+		return self._table_elementwise_operation(other, lambda col, o: o * col, '__rmul__', '*')
+
+	def __rtruediv__(self, other):
+		return self._table_elementwise_operation(other, lambda col, o: o / col, '__rtruediv__', '/')
+
+	def __rfloordiv__(self, other):
+		return self._table_elementwise_operation(other, lambda col, o: o // col, '__rfloordiv__', '//')
+
+	def __rmod__(self, other):
+		return self._table_elementwise_operation(other, lambda col, o: o % col, '__rmod__', '%')
+
+	def __rpow__(self, other):
+		return self._table_elementwise_operation(other, lambda col, o: o ** col, '__rpow__', '**')
+
 	@staticmethod
 	def _validate_key_tuple_hashable(key_tuple, key_cols, row_idx):
 		"""
